@@ -11,10 +11,16 @@ CONF = "python/experiment/model/conf.py"
 FLOWIR = "python/experiment/model/frontends/flowir.py"
 DSL = "python/experiment/model/frontends/dsl.py"
 GRAPH = "python/experiment/model/graph.py"
-SCOPE = (CONF, FLOWIR, DSL, GRAPH)
+SCOPE = (CONF, FLOWIR, DSL, GRAPH, "python/experiment/model/frontends/dosini.py")
 
 # Benign hits on today's tree, each confirmed by reading; (file suffix, function, kind) -> reason.
 EXEMPT = {
+    ("dosini.py", "Dosini._dosini_environments_to_dicts", "S1-listcomp"): "the file names are unique and become the keys of a dictionary; nothing is numbered or overwritten",
+    ("dosini.py", "Dosini.validate_component", "S1-materialise"): "order of the error objects in the list of errors only",
+    ("dosini.py", "Dosini.validate_component", "S1-listcomp"): "order of the error objects in the list of errors only",
+    ("dosini.py", "Dosini.parse_component", "S2-loop"): "every option is handled by its own branch: it appends at most one element to a list no other option appends to, or merges into the one docker dictionary",
+    ("dosini.py", "Dosini.dump", "S1-listcomp"): "files to delete before writing: the order of deletion is irrelevant",
+    ("dosini.py", "Dosini._comp_resource_manager_to_str", "S2-loop"): "order of the error objects in the list of errors only",
     ("flowir.py", "validate_input_bindings_names", "S1-materialise"): "text of an error message only",
     ("flowir.py", "validate_provided_bindings", "S1-materialise"): "text of an error message only",
     ("flowir.py", "instantiate_dowhile", "S1-join"): "text of an error message only",
@@ -213,6 +219,43 @@ def check_module_memos(ctx, rule: str, consequence: str) -> None:
     ctx.floor(rule, n_fn, 500, "functions of the load-path modules inspected for module-level memos")
 
 
+def check_search_verdicts(ctx, mods) -> None:
+    """A loop over the values/items/keys of a mapping (its order is the order in which the document lists the keys) that returns
+    from inside the loop is a search.  It is order-independent when every return inside the loop gives the same verdict ("is there an
+    element with P": the other verdict is reached by exhausting the mapping); two different verdicts inside the loop make the FIRST
+    matching key win."""
+    RID = "C15.R10-search-over-a-mapping-has-one-verdict"
+    n = 0
+    for m in mods:
+        for q, fn in m.functions.items():
+            for lp in source.walk_own(fn):
+                if not (isinstance(lp, ast.For) and isinstance(lp.iter, ast.Call) and isinstance(lp.iter.func, ast.Attribute)
+                        and lp.iter.func.attr in ("values", "items", "keys") and not lp.iter.args):
+                    continue
+                rets = []
+                todo = list(lp.body)
+                while todo:
+                    x = todo.pop()
+                    if isinstance(x, (ast.FunctionDef, ast.AsyncFunctionDef, ast.Lambda, ast.ClassDef)):
+                        continue
+                    if isinstance(x, ast.Return):
+                        rets.append(x)
+                    todo.extend(ast.iter_child_nodes(x))
+                if not rets:
+                    continue
+                n += 1
+                ctx.analysed(fn)
+                verdicts = sorted({source.src(r.value) if r.value is not None else "None" for r in rets})
+                ok = len(verdicts) == 1
+                ctx.ob(RID, lp, ok,
+                       "every return inside the loop over %s gives the verdict %s (an existence test)" % (short(lp.iter, 40), verdicts[0]) if ok else
+                       "the loop over %s returns %s from inside the loop: whichever key the document lists first decides, so two documents "
+                       "that differ only in the order of these keys get different answers (e.g. 'replicates' for one, 'unknown variable "
+                       "replica' for the other)" % (short(lp.iter, 40), " or ".join(verdicts)),
+                       construct="%s: search over %s" % (fn.name, short(lp.iter, 40)))
+    ctx.floor(RID, n, 1, "loops over a mapping view that return from inside the loop")
+
+
 def check_rekeying(ctx, mods) -> None:
     RID = "C15.R8-key-normalisation-in-sorted-order"
     NORMALISERS = ("lower", "upper", "strip", "casefold", "title")
@@ -226,19 +269,34 @@ def check_rekeying(ctx, mods) -> None:
                 # D[<normaliser>(k)] = D[k] in the body, for the mapping D whose keys are iterated
                 hits = []
                 for st in ast.walk(lp):
-                    if isinstance(st, ast.Assign) and len(st.targets) == 1 and isinstance(st.targets[0], ast.Subscript) \
-                            and isinstance(st.value, ast.Subscript) and source.src(st.targets[0].value) == source.src(st.value.value) \
-                            and isinstance(st.value.slice, ast.Name) and st.value.slice.id == k:
-                        key = st.targets[0].slice
-                        if isinstance(key, ast.Call) and isinstance(key.func, ast.Attribute) and key.func.attr in NORMALISERS \
-                                and isinstance(key.func.value, ast.Name) and key.func.value.id == k:
-                            hits.append((st, source.src(st.value.value)))
+                    if not (isinstance(st, ast.Assign) and len(st.targets) == 1 and isinstance(st.targets[0], ast.Subscript)):
+                        continue
+                    v = st.value
+                    # the old entry: D[k], or D.pop(k)
+                    if isinstance(v, ast.Subscript) and isinstance(v.slice, ast.Name) and v.slice.id == k:
+                        dexpr = v.value
+                    elif isinstance(v, ast.Call) and last_attr(v) == "pop" and len(v.args) == 1 and isinstance(v.args[0], ast.Name) and v.args[0].id == k:
+                        dexpr = v.func.value
+                    else:
+                        continue
+                    if source.src(st.targets[0].value) != source.src(dexpr):
+                        continue
+                    key = st.targets[0].slice
+                    # the new key: k.lower() and the like, or any function of k alone (stage_identifier_to_stage_index(k))
+                    if isinstance(key, ast.Call) and ((isinstance(key.func, ast.Attribute) and key.func.attr in NORMALISERS
+                                                       and isinstance(key.func.value, ast.Name) and key.func.value.id == k)
+                                                      or (len(key.args) == 1 and not key.keywords and isinstance(key.args[0], ast.Name) and key.args[0].id == k)):
+                        hits.append((st, source.src(dexpr)))
                 for (st, dname) in hits:
                     if dname not in source.src(lp.iter):
                         continue
                     n += 1
                     it = lp.iter
-                    ok = isinstance(it, ast.Call) and call_name(it) == "sorted" and not any(kw.arg == "key" for kw in it.keywords)
+                    # a key function is accepted only when it cannot tie two different keys (repr); str.lower and the like tie exactly
+                    # the keys that collide
+                    ok = isinstance(it, ast.Call) and call_name(it) == "sorted" and not any(
+                        kw.arg == "key" and not (isinstance(kw.value, ast.Name) and kw.value.id == "repr") for kw in it.keywords) and not any(
+                        kw.arg == "reverse" and not isinstance(kw.value, ast.Constant) for kw in it.keywords)
                     ctx.analysed(fn)
                     ctx.ob(RID, lp, ok,
                            "%s re-keys %s under %s while iterating its keys in sorted order" % (q, dname, short(st.targets[0].slice, 20)) if ok else
@@ -316,6 +374,9 @@ def run(ctx) -> None:
     ctx.rule("C15.R9-scope-per-component", "components are visited in the order of a SET of identifiers (hash-seed dependent); that is harmless only "
              "while nothing is carried from one component to the next: the substitution scope that receives a component's variables in "
              "FlowIRConcrete.instance is created inside the loop over the components (shared rule with C04.R12)")
+    ctx.rule("C15.R10-search-over-a-mapping-has-one-verdict", "a loop over the values/items/keys of a mapping that returns from inside the loop returns "
+             "one and the same value at every such return (the other answer is given after the loop): with two verdicts inside the loop "
+             "the key listed first in the document decides")
     ctx.rule("C15.R5-single-pass-expansion-not-loop-carried", "a single-pass substitution (Template.safe_substitute wrappers such as "
              "expand_vars) applied while iterating a mapping never uses as its context a mapping that is stored into in the same "
              "loop: otherwise values seen by later keys depend on the key order of the (equal) input document")
@@ -357,6 +418,7 @@ def run(ctx) -> None:
     ctx.extra["functions_scanned"] = n_funcs
     check_single_pass_expansion(ctx, mods)
     check_rekeying(ctx, mods)
+    check_search_verdicts(ctx, mods)
     ctx.floor("C15.R1-order-taint", n_hits, 10, "order-taint hits (benign + violating) - fewer means the detector lost its sources")
 
     # ---------------- R2 -------------------------------------------------------------------------------
